@@ -374,6 +374,23 @@ def check_C17(ctx, w):
     for t in tests:
         t["ops"] += [{"op": "obs"}, {"op": "reopen", "close": True, "create": False}, {"op": "obs"}]
     seq_pipeline(ctx, w, tests, ["Conf_C17"])
+    # shape part: all ordered pairs of 10 declarations of m.T x 3 storage configurations (+ extension change)
+    binp = vlib.build()
+    sd = w.sub("shapes")
+    tp = os.path.join(sd, "shapes.ndjson")
+    vlib.sh([binp, "shapes", "-out", tp, "-work", sd], timeout=600)
+    known = [(k["id"], k["deviation"]) for k in load_known()["findings"] if k.get("status") == "known" and k["property"] == ctx.pid]
+    failures, states, runs, hits = vlib.validate_trace(tp, ["NoPanic", "Conf_C17S"], w.sub("val-shapes"), known=known, max_fail=50)
+    note_hits(ctx, hits)
+    nshape = sum(1 for l in open(tp) if '"ev":"shape"' in l)
+    ctx.trace_states += states
+    ctx.events += nshape
+    ctx.tests += nshape
+    ctx.extra_cov["shape_pairs"] = nshape
+    log("  [shapes] %d (declaration pair x configuration) cases validated by TLC" % nshape)
+    for f in failures:
+        # every pair is its own case: report each
+        record_failure(ctx, w, f, None, ["Conf_C17S"], "SodTrace")
 
 
 def check_C14(ctx, w):
@@ -396,6 +413,10 @@ def check_C18(ctx, w):
                 "directory (os.ReadDir, gzip, encoding/json only) is compared by TLC with the abstract map: directory name, schema.json, exactly one <uuid><ext>[.gz] file per object, decoded content")
     tests = mc_tests(ctx, w, "mc", slots=2, kvals=2, avals=2, maxbatch=2, maxops=ctx.q(3, 4), bfilter="PairBatch", get=False, limit=ctx.q(3000, 40000), cfgs="SyncCfgs")
     tests += rnd_tests(ctx, ctx.q(150, 2500), nops=ctx.q(25, 40), cfgs=[(False, False), (True, False)])
+    # asynchronous configurations: the layout is judged once Close has returned
+    tests += rnd_tests(ctx, ctx.q(150, 2500), nops=ctx.q(20, 40), cfgs=[(False, True), (True, True)], p_reopen=0.12, p_del=0.25, label="rasync")
+    for t in tests:
+        t["ops"].append({"op": "reopen", "close": True, "create": False})
     seq_pipeline(ctx, w, tests, ["Conf_C18"])
 
 
@@ -457,11 +478,15 @@ META.update({
     "C19": dict(level="fault_enumeration", technique="argument battery and file-mutation engine on the real code; TLC validates the recorded outcome classes (ArgOK / no panic) in SodTrace",
                 text="argument part exhaustive over 13 fields x 11 operators x 15 value kinds (+ invalid patterns, unknown / partial paths, unsearchable fields) on empty / non-empty, indexed / plain collections; file part (thorough: exhaustive) truncation at every length, every single-bit flip, every JSON node replaced by 12 other values for schema.json and an object file (plain and gzip), 14 stray directory entries, each followed by a 20-call battery on fresh handles: never a panic or hang, never objects for a malformed query"),
 })
+META.update({
+    "C10": dict(level="model_checking", technique=TECH + "; the flusher's time.Sleep is rewritten to a virtual clock so that TLC-enumerated interleavings of calls, ticks and flusher polls are replayed deterministically",
+                text="PendingOK / FilesOK / ClosedDurable / FlushedDurable are invariants and action properties of the async design model (TLC, thresholds 1..2, timeouts 1..2); every history of that model is replayed with the virtual clock and TLC checks on the recorded trace: reads right after an accepted async write, after each tick at which the threshold or the timeout was reached everything accepted is on disk and the schema committed, the same after Close / FlushAllAndCommit (files only after FlushAll), a deleted pending object never on disk, the flusher exists"),
+    "C17": dict(level="model_checking", technique=TECH + "; deviation-guided generation (the model explored with the named deviations switched on yields the histories that tell a faulty switch apart); declaration pairs enumerated by the driver and judged by TLC (ShapeOK)",
+                text="settings part: Switch is an action of the design model (RefOK / PendingOK across all 12 ordered pairs of cache/async settings, with flusher and clock); every history with a switch is replayed with the virtual clock and followed by close + reopen; shape part: all ordered pairs of 10 declarations of the same type name (field added / removed / retyped / nested, index, unique, case constraint changed, identical) x 3 storage configurations + extension change: every operation refused with the documented error and the directory byte-identical, compatible Create idempotent and data preserving"),
+})
 NOT_YET = {
     "C08": "concurrency engine (SodLin / SodLock) not built yet in this round",
     "C09": "lock model (SodLock) not built yet in this round",
-    "C10": "virtual-clock async engine not built yet in this round (async visibility is covered by C01/C12 configurations)",
-    "C17": "schema-guard engine (shape pairs, settings switches) not built yet in this round",
 }
 
 
